@@ -77,6 +77,15 @@ ENTRIES = {
             "Equivariance of the external GLM/GEE/Nelder-Mead fits is measured on each pair (gate H); pandas index alignment is "
             "glue reached only through gates K/D; SE theorems are at the variance level.",
             "Lean 4 proof (permutation / relabelling / affine-map algebra) + metamorphic differential check", 'DESIGN.md §6 C08'),
+    'C09': ('Lean theorems for all data sets and all natural-number weights (no positivity hypothesis): a sum weighted by integer multiplicities equals the plain sum over the list with repeats, hence every weighted sum zEpid forms, the frequency-weighted GLM score equations (so the same fitted values solve both problems; for a saturated model they are unique), the closed-form standardization, and the models of IPTW (6 weight cells x missingness weight), StochasticIPTW, TimeFixedGFormula (any target, both predict_missing settings), GTransportFormula, AIPTW (incl. missing outcomes), closed-form GEstimationSNM and SurvivalGFormula are equal on the weighted data and on the physically replicated data. Weighted run vs df.loc[df.index.repeat(w)] run for every estimator and option cell.',
+            'Determinism of the GLM on equal score equations is the external assumption (reference weighted and replicated fits measured); fit_stochastic and the Nelder-Mead SNM solver are excluded (random / tolerance-based).',
+            'Lean 4 proof (replication algebra over sumBy) + differential correspondence', 'DESIGN.md §6 C09'),
+    'C10': ('Lean theorems on the model of check_input_data: deleting incomplete rows is idempotent and any function of the checked data is unchanged by it (two data sets agreeing on their complete rows give the same result); drop_censoring=True equals the complete-case data with every outcome observed; outcome models are fitted on exactly the observed-outcome rows and values stored on unobserved rows are irrelevant; with saturated treatment and missingness models IPTW (corollary of P01.iptw_saturated with a real missingness fit) and TMLE (P02.tmle_dr_treatment) standardize observed-outcome cell means over all retained rows; both settings of the g-formula predict_missing switch; effect-measure classes ignore and count rows missing exposure or outcome (C07). Result on data == result after deletion for the 11 classes built on check_input_data (an smf.glm spy records the rows reaching each fit).',
+            'AIPTW with missing outcomes is deliberately not claimed to standardize.',
+            'Lean 4 proof + differential correspondence', 'DESIGN.md §6 C10'),
+    'C11': ('Lean theorems by induction over arbitrary call histories on per-class tables (which method writes which slot, what fit/summary require): a slot holds its last accepted specification; a fit after any history equals the fit of a fresh object holding only the last specifications; running the normalised history (<= 2*nslots+1 calls) gives the same state as the full history; fit raises exactly when a required slot was never specified, summary exactly when no fit went through; a raising call leaves the state unchanged. 16 classes driven through random and structured histories: the real object must raise exactly where the model says and otherwise equal (results, printed text, public attributes) a fresh object driven by the canonical list.',
+            "Non-mutation of the caller's DataFrame / arrays is Python aliasing: monitored at run time by deep snapshots before/after every call (a test, reported as such), not proved.",
+            'Lean 4 proof (state machine, induction over op lists) + history correspondence + run-time non-mutation monitor', 'DESIGN.md §6 C11'),
     'C12': ("Lean theorems over any ordered field, any number of time points / individuals / covariate arities / plans: the "
             "backward recursion of IterativeCondGFormula with cell-fit outcome models equals the nonparametric g-formula "
             "recursion (count form proved equal to the textbook h + (1-h) sum f G form), by induction over the remaining "
@@ -87,6 +96,9 @@ ENTRIES = {
             "GLM fits assumed to solve their score equations (measured; rank-deficient designs discarded); stable sort and "
             "patsy NaN handling are glue reached by the differential gates only.",
             "Lean 4 proof (induction over time points, stratum regrouping) + differential correspondence", "DESIGN.md §6 C12"),
+    'C13': ("Lean theorems (core Lean, any carrier, every configuration / baseline row / draw sequence / t_max / sample): exactly `sample` histories; a record with a successor has no event and is uncensored; at most one event and it is last; the last record is terminal; 1..t_max records with t_in = j, t_out = j+1; exposure equals the plan in every record (all / none / natural = the draw / custom rule on the frame the exposure model saw); every lag column holds the previous interval's value for any lag dictionary with distinct targets in any listing order (second-order chains included); low-memory output = last record of each full history. MonteCarloGFormula._predict is wrapped at run time to log and pin the draws and every frame each model sees; the model replays the same draws.",
+            "The RNG is outside the model (identities are in the captured draws); exec/eval strings are modelled through the assignment / condition grammar the harness generates from.",
+            'Lean 4 proof (induction over simulation steps) + trace correspondence', 'DESIGN.md §6 C13'),
     'C14': ("Lean theorems: for pairwise-exclusive conditions the per-row plan probability (StochasticIPTW numerator and estimate, StochasticTMLE clever covariate, Monte-Carlo assignment as a function of the captured draws) is invariant under any permutation of the (condition, p) list; p = 1 / p = 0 reduce StochasticIPTW to the unstabilized IPTW arm mean and the stochastic g-formula to fit('all') / fit('none') (int(1.0 n) = n); with a saturated treatment model StochasticIPTW equals the stratum mixture exactly; for any draw the simulating estimators equal the mixture at the realised treated fractions (mean over resamples = mixture at the mean fraction). Draws captured by wrapping numpy's RNG and replayed under every listing order.",
             "The seed-to-draw map of numpy is outside the model: 'within Monte Carlo error' is replaced by the exact identity at the realised fractions; |realised - nominal| is only reported.",
             'Lean 4 proof (List.Perm induction, stratum regrouping) + differential correspondence', 'DESIGN.md §6 C14'),
